@@ -61,6 +61,7 @@ FAMILIES = [
 
 def pair_plans(prop, base_seed):
     plans = []
+    E._WIDE[0] = False          # the ordered-pair sweep uses the ordinary palette
     for fi, fam in enumerate(FAMILIES):
         cfg = copy.deepcopy(fam)
         d = Draw(subseed(base_seed, prop, 'pairs', fi))
